@@ -209,7 +209,10 @@ class Walk(object):
         for nd in nodes:
             if r.dnp:
                 r.dnp -= 1
-                if nd.t in ('S', 'R', 'D', 'O', 'US'):
+                if nd.t == 'O' and nd.id // 1000 in (201, 202, 207, 208):
+                    # one of the YYY descriptors whichever way they are counted; it takes effect as usual
+                    self.features.add('221_over_operator')
+                elif nd.t in ('S', 'R', 'D', 'O', 'US'):
                     self.ambiguous.append('221 scope over a non-element descriptor')
                 if nd.t == 'E':
                     x = nd.id // 1000
